@@ -2280,7 +2280,7 @@ def near_probe_specs():
 
 
 def near_specs(ctx):
-    return near_probe_specs() + [random_near_spec(ctx.rng) for _ in range(ctx.n(32, 500))]
+    return near_probe_specs() + [random_near_spec(ctx.rng) for _ in range(ctx.n(24, 500))]
 
 
 def rel_class(a, b):
@@ -2312,7 +2312,7 @@ def run_near(ctx, specs):
         if any(z in e for e in nr["edges"] for z in zs):
             ctx.bump("near:z_exactly_on_a_variant_of_an_edge")
     before = ctx.hist.get("history:pre:stale_binning_moves_an_object", 0)
-    codes = run_history_family(ctx, specs, name="Near_C10", shard=10)      # 53-bit numerators: smaller shards, evaluated in parallel
+    codes = run_history_family(ctx, specs, name="Near_C10", shard=8)      # 53-bit numerators: smaller shards, evaluated in parallel
     moved = ctx.hist.get("history:pre:stale_binning_moves_an_object", 0) - before
     ctx.bump("near:cached_near_equal_binning_puts_an_object_into_another_bin", moved)
     ctx.obligation("generator:near-equal binnings: in at least a quarter of the histories the trees cached before the measured build "
@@ -2385,6 +2385,7 @@ def eval_near_eq(ctx, recs, name="NearEq_C10"):
         kept.append((tid, t))
     if not terms:
         return []
+    ctx.log("%d comparisons of near-equal binnings observed, evaluating in Coq" % len(terms))
     codes = ctx.shards(name, HEADER_EQ, terms, shard=40)
     for (tid, t), c in zip(kept, codes):
         # bits (set = flag false): 1 == is the exact comparison, 2 != is its negation, 4 the cache's comparison is the exact one,
@@ -2557,7 +2558,7 @@ def run(ctx):
     run_history_family(ctx, history_specs(ctx))
     run_large(ctx, large_specs(ctx))
     run_near(ctx, near_specs(ctx))
-    eval_near_eq(ctx, near_eq_records(ctx, ctx.n(8, 120)))
+    eval_near_eq(ctx, near_eq_records(ctx, ctx.n(6, 120)))
     eval_transports(ctx, transport_records(ctx))
 
 
